@@ -55,6 +55,23 @@ func verifCommentsKept(src []byte, lang LangVariant) {
 	if verifC01Known(src, f, o) {
 		return
 	}
+	// SingleLine: a comment inside a here-document body is printed after the
+	// comments of the statements joined onto the heredoc's line
+	hdocComment := false
+	Walk(f, func(n Node) bool {
+		if r, ok := n.(*Redirect); ok && r.Hdoc != nil {
+			Walk(r.Hdoc, func(m Node) bool {
+				if _, isCom := m.(*Comment); isCom {
+					hdocComment = true
+				}
+				return true
+			})
+		}
+		return true
+	})
+	if verifKnown("C05-singleline-heredoc-comment-order", o.single && hdocComment) {
+		return
+	}
 	before := verifComments(f)
 	if o.simplify {
 		Simplify(f)
@@ -324,6 +341,12 @@ func verifBashOnly(f *File) string {
 		case *ParamExp:
 			if n.Excl || n.Index != nil || n.Slice != nil || n.Repl != nil || n.Names != 0 || n.Width || n.IsSet {
 				bad = "bash parameter expansion"
+			}
+			if n.Exp != nil {
+				switch n.Exp.Op {
+				case UpperFirst, UpperAll, LowerFirst, LowerAll, OtherParamOps:
+					bad = "bash parameter expansion operator"
+				}
 			}
 		case *Redirect:
 			switch n.Op {
